@@ -206,4 +206,25 @@ func (f *Frame) deferInstr(ns *nodeState, x *ssa.Defer)   { f.ex.fail("defer") }
 func (f *Frame) goInstr(ns *nodeState, x *ssa.Go)         { f.ex.fail("go statement") }
 func (f *Frame) sendInstr(ns *nodeState, x *ssa.Send)     { f.ex.fail("channel send") }
 func (f *Frame) makeChan(ns *nodeState, x *ssa.MakeChan)  { f.ex.fail("make(chan)") }
-func (f *Frame) recvInstr(ns *nodeState, x *ssa.UnOp)     { f.ex.fail("channel receive") }
+// recvInstr: `v, ok := <-ch` on a channel parameter. The value is arbitrary, ok is arbitrary (the sender and the
+// scheduler are not modelled); what is modelled is this function's own history: when ok, v is appended to the ghost
+// list recv_<ch>. A plain `<-ch` (without ok) is not supported.
+func (f *Frame) recvInstr(ns *nodeState, x *ssa.UnOp) {
+	ex, vc := f.ex, f.ex.vc
+	if !x.CommaOk {
+		ex.fail("channel receive without ok")
+	}
+	c, ok := ex.chanHist[x.X]
+	if !ok {
+		ex.fail("channel receive from a channel that is not a parameter")
+	}
+	ct := x.X.Type().Underlying().(*types.Chan)
+	v := f.havocVal(ct.Elem(), f.prefix+x.Name()+"_v", ns.reach)
+	okT := vc.Declare(f.prefix+x.Name()+"_ok", SBool)
+	h := ns.st[c]
+	ext := MkData(h.Sort, Store(slArr(h), slLen(h), v.T), addT(slLen(h), IntLit64(1, SInt)), TFalse)
+	ns.st[c] = vc.Define(f.prefix+x.Name()+"_hist", Ite(okT, ext, h))
+	ex.markWritten(c, -1)
+	vc.assumeNote("channel receive: the received value and whether the channel is closed are arbitrary; the values received so far are recorded in a ghost list")
+	ns.env[x] = Val{Tup: []Val{v, {T: okT}}}
+}
